@@ -2302,6 +2302,15 @@ fn generate_c33_graph(rng: &mut Rng, n: usize, tier: &str, out: &mut dyn Write) 
     for id in &ids {
         writeln!(out, "#case graph-{}", id).unwrap();
         let (_dir, db) = build_graph(*id);
+        for sh in [
+            "MATCH (a:N) RETURN a.i AS k, [(a)-[:R]->(b) | size(range(1, b.i * 3))] AS r",
+            "MATCH (a:N) RETURN sum(reduce(acc = 0, x IN [(a)-[:R]->(b) | b.i * 3] | acc + size(range(1, x)))) AS r",
+            "MATCH (a:N) WHERE any(x IN [(a)-[:R]->(b) | b.i] WHERE size(range(0, x * 3)) > 6) RETURN a.i AS k",
+        ] {
+            for c in [2, 4, 7, 10, 13, 16] {
+                writeln!(out, "limxg {} - {} - ; {}", id, c, sh).unwrap();
+            }
+        }
         // OPTIONAL MATCH … WHERE and the blocking operators over expansions under EVERY collection
         // limit that can matter: each of the check sites (outer / filtered / output, OrderBy.collect,
         // Aggregate.*) is the first to fail for some limit
@@ -2411,6 +2420,22 @@ fn pick_limit(rng: &mut Rng, around: usize) -> String {
 }
 
 fn large_query(rng: &mut Rng) -> String {
+    // mark the scalar sub-expressions of the tail (for the nesting layer)
+    let q = large_query0(rng);
+    let m = |e: &str| format!("{}{}{}", M_OPEN, e, M_CLOSE);
+    let mut q = q.replace("RETURN a AS a", &format!("RETURN {} AS a", m("a"))).replace("collect(a)", &format!("collect({})", m("a")));
+    for (pre, post) in [("DISTINCT ", " AS m"), ("RETURN ", " AS k"), ("WITH ", " AS m, collect")] {
+        let pat = format!("{}a % ", pre);
+        if let Some(i) = q.find(&pat)
+            && let Some(j) = q[i..].find(post)
+        {
+            let (s0, e0) = (i + pre.len(), i + j);
+            q = format!("{}{}{}", &q[..s0], m(&q[s0..e0]), &q[e0..]);
+        }
+    }
+    q
+}
+fn large_query0(rng: &mut Rng) -> String {
     let n = rng.range(5, 60);
     let m = rng.range(2, 12);
     let src = match rng.below(4) {
@@ -2469,16 +2494,16 @@ fn generate_c33(rng: &mut Rng, n: usize, tier: &str, out: &mut dyn Write) {
         if made % 50 == 0 {
             writeln!(out, "#case random-{}", made / 50).unwrap();
         }
-        let cy = if rng.chance(1, 2) {
+        let marked = if rng.chance(1, 2) {
             large_query(rng)
         } else {
             let mut g = QGen::new(rng, 12);
             g.min_limit = 1;
+            g.mark = true;
             g.query()
         };
-        if model_plan(&cy).is_none() {
-            continue;
-        }
+        let cy = strip_marks(&marked);
+        let Some(base_toks) = model_plan(&cy) else { continue };
         // limits around what the unlimited run actually needs (the engine tells)
         let (o, emitted) = run_query(&db, &cy, unlimited());
         let nrows = match &o {
@@ -2490,6 +2515,47 @@ fn generate_c33(rng: &mut Rng, n: usize, tier: &str, out: &mut dyn Write) {
         let a = if rng.chance(2, 3) { "-".to_string() } else { pick_limit(rng, 6) };
         if emit_q(out, &format!("lim {} {} {}", r, c, a), &cy) {
             made += 1;
+            // the same query with its sub-expressions nested, under a collection / apply limit
+            let (nested, k) = realize_nested(&marked, rng, None);
+            if k > 0 {
+                let c2 = if c == "-" { pick_limit(rng, nrows.max(4)) } else { c.clone() };
+                writeln!(out, "limw - {} {} ; {} ; {}", c2, a, base_toks, nested).unwrap();
+            }
+        }
+    }
+    // a list built INSIDE a construct, its length depending on a variable bound by that construct
+    // (quantifier, reduce, list / pattern comprehension) or read only inside CASE: the row-level
+    // pre-check cannot see the bound; engine only — the answer must be the unlimited one or a limit error.
+    // The long list on the first / middle / LAST row, limits below, at and above the lengths.
+    writeln!(out, "#case nested-range").unwrap();
+    let shapes: &[&str] = &[
+        "RETURN any(x IN [n] WHERE size(range(1, x)) > 7) AS r",
+        "RETURN all(x IN [n, 2] WHERE size(range(1, x)) < 9) AS r",
+        "RETURN none(x IN [n] WHERE size(range(1, x)) > 7) AS r",
+        "RETURN single(x IN [n, 3] WHERE size(range(1, x)) > 7) AS r",
+        "RETURN reduce(acc = 0, x IN [n, 2] | acc + size(range(1, x))) AS r",
+        "RETURN reduce(acc = 0, x IN [1, 2] | acc + size(range(1, x * n))) AS r",
+        "RETURN sum(reduce(acc = 0, x IN [n] | acc + size(range(1, x)))) AS r",
+        "RETURN [x IN [n] | size(range(1, x))] AS r",
+        "RETURN size([x IN range(1, n) WHERE x % 2 = 0 | x]) AS r",
+        "RETURN CASE WHEN n > 0 THEN size(range(1, n)) ELSE 0 END AS r",
+        "RETURN CASE WHEN any(x IN [n] WHERE last(range(1, x)) > 7) THEN 1 ELSE 0 END AS r",
+        "WITH n WHERE any(x IN [n] WHERE size(range(1, x)) > 7) RETURN n AS r",
+        "WITH n WHERE reduce(acc = 0, x IN [n] | acc + last(range(1, x))) > 7 RETURN count(n) AS r",
+        "RETURN n AS r ORDER BY reduce(acc = 0, x IN [n] | acc + size(range(1, x))) DESC LIMIT 2",
+        "RETURN DISTINCT any(x IN [n, 1] WHERE size(range(x, 12)) > 6) AS r",
+        "RETURN reduce(acc = 0, x IN [n] | acc + size([y IN range(1, x) | y])) AS r",
+    ];
+    let lists: &[&str] = &["[12, 3, 4]", "[3, 12, 4]", "[3, 4, 12]", "[3, 4, 5]", "[12]", "[20, 12, 9]"];
+    let lims: Vec<usize> = if tier == "thorough" { (1..=22).collect() } else { vec![2, 4, 5, 8, 9, 11, 12, 13, 21] };
+    for (si, sh) in shapes.iter().enumerate() {
+        for (li, l) in lists.iter().enumerate() {
+            if tier != "thorough" && (si + li) % 2 == 1 {
+                continue;
+            }
+            for c in &lims {
+                writeln!(out, "limx - {} - ; UNWIND {} AS n {}", c, l, sh).unwrap();
+            }
         }
     }
     // engine-only: operators outside the model's fragment (node scans, expansions, var-length) on a small graph
@@ -2618,6 +2684,36 @@ fn where_pred(rng: &mut Rng, var: &str, depth: u32) -> String {
     }
 }
 
+/// `first.prop = <value>` (either operand order, maybe AND another conjunct) where the value reads
+/// the alias bound LATER in the pattern only inside a construct; the constants are values the
+/// graphs carry, so the early (later alias = null) and the real evaluation disagree on some rows
+fn nested_join_pred(rng: &mut Rng, first: &str, later: &str) -> String {
+    let (a, b) = if rng.chance(3, 4) { (first, later) } else { (later, first) };
+    let pa = *rng.pick(&["x", "y"]);
+    let pb = *rng.pick(&["x", "y"]);
+    let c1 = rng.pick(EQ_CONSTS).0;
+    let c2 = rng.pick(EQ_CONSTS).0;
+    let read = format!("{}.{}", b, pb);
+    let value = match rng.below(10) {
+        0 => format!("CASE WHEN {} IS NULL THEN {} ELSE {} END", read, c1, c2),
+        1 => format!("CASE WHEN {} = {} THEN {} ELSE {} END", read, c1, c2, c1),
+        2 => format!("CASE WHEN {} > 1 THEN {} ELSE {} END", read, c1, c2),
+        3 => format!("CASE {} WHEN {} THEN {} ELSE {} END", read, c1, c1, c2),
+        4 => format!("[zz IN [{}] | zz][0]", read),
+        5 => format!("reduce(acc = {}, zz IN [{}] | zz)", c1, read),
+        6 => format!("CASE WHEN any(zz IN [{}] WHERE zz IS NOT NULL) THEN {} ELSE {} END", read, c1, c2),
+        7 => format!("coalesce({}, {})", read, c1),
+        8 => format!("[zz IN [1] WHERE {} IS NOT NULL | {}][0]", read, c2),
+        _ => nest(rng.below(NEST_KINDS), &read, None),
+    };
+    let eq = if rng.chance(1, 4) { format!("{} = {}.{}", value, a, pa) } else { format!("{}.{} = {}", a, pa, value) };
+    match rng.below(4) {
+        0 => format!("{} AND {}.name IS NOT NULL", eq, b),
+        1 => format!("{}.name IS NOT NULL AND {}", a, eq),
+        _ => eq,
+    }
+}
+
 fn generate_c19(rng: &mut Rng, n: usize, _tier: &str, out: &mut dyn Write) {
     let cases = (n / 25).max(1);
     let per_case = n.div_ceil(cases);
@@ -2697,7 +2793,38 @@ fn generate_c19(rng: &mut Rng, n: usize, _tier: &str, out: &mut dyn Write) {
                 6 => ("MATCH (n:P) OPTIONAL MATCH (n)-[:R]->(m) WITH n, m".to_string(), "m", "RETURN n.name AS a, m.name AS b"),
                 _ => ("UNWIND [{x: 1, y: true, name: 'a'}, {x: 'str', name: 'b'}, {y: false}, {x: null}] AS n WITH n".to_string(), "n", "RETURN n.name AS name"),
             };
-            let (pred, params) = if rng.chance(2, 5) { eq_conjunction(rng, var) } else { (where_pred(rng, var, 1), vec![]) };
+            // a third of the lines: two aliases, an equality whose value reads the OTHER alias only
+            // inside CASE / a comprehension / reduce / a quantifier (join keys the planner may push down)
+            let two: Option<(String, &str, &str, &str)> = if rng.chance(1, 3) {
+                Some(match rng.below(6) {
+                    0 => (format!("MATCH (n:P{})-[:R]->(m)", inline(rng)), "n", "m", "RETURN n.name AS a, m.name AS b"),
+                    1 => ("MATCH (n)-[:R]->(m)".to_string(), "n", "m", "RETURN n.name AS a, m.name AS b"),
+                    2 => ("MATCH (m)<-[:R]-(n)".to_string(), "m", "n", "RETURN n.name AS a, m.name AS b"),
+                    3 => ("MATCH (n:P), (m)".to_string(), "n", "m", "RETURN n.name AS a, m.name AS b"),
+                    4 => ("MATCH (n), (m:P)".to_string(), "n", "m", "RETURN n.name AS a, m.name AS b"),
+                    _ => ("MATCH (n)-[:R]-(m)".to_string(), "n", "m", "RETURN n.name AS a, m.name AS b"),
+                })
+            } else {
+                None
+            };
+            let (prefix, var, suffix) = match &two {
+                Some((p, _, _, sfx)) => (p.clone(), "n", *sfx),
+                None => (prefix, var, suffix),
+            };
+            let (pred, params) = if let Some((_, first, later, _)) = &two {
+                (nested_join_pred(rng, first, later), vec![])
+            } else if rng.chance(2, 5) {
+                eq_conjunction(rng, var)
+            } else {
+                let p = where_pred(rng, var, 1);
+                // now and then the whole predicate inside a quantifier / CASE
+                let p = match rng.below(8) {
+                    0 => nest_bool(rng.below(4), &p),
+                    1 => format!("CASE WHEN true THEN {} END", p),
+                    _ => p,
+                };
+                (p, vec![])
+            };
             let pstr: Vec<&str> = params.iter().map(|x| x.as_str()).collect();
             let ps = parse_params(&pstr);
             let Some(classes) = classes_of(&db, &prefix, &pred, &ps) else { continue };
